@@ -152,7 +152,7 @@ package balance
 //@ spec reportOK(r *Report) bool
 //@ axiom report_ok_unfold: forall r *Report :: {reportOK(r)} reportOK(r) ==> r != nil && r.AL != nil && r.EIE != nil && r.AL != r.EIE && r.Registry != nil && r.Registry.accounts != nil && len(r.partition.periods) >= 0
 //@ func NewReport
-//@   requires reg != nil && reg.accounts != nil
+//@   requires reg != nil && wfAccounts(reg.accounts)
 //@   modifies nothing
 //@   ensures result != nil && fresh(result) && result.AL != nil && result.EIE != nil && result.AL != result.EIE && result.Registry == reg && result.partition == part
 //@   ensures [trusted] @ok: reportOK(result)
